@@ -26,6 +26,13 @@ CFG = {
         "files": ["src/geom2/curve2.rs", "src/geom3/curve3.rs"],
         "tol": {"*": 1e-9},
     },
+    "C03": {
+        "cases": {"quick": 1600, "thorough": 160000},
+        "level_text": "Theorems (every ordered field, for every rotation matrix RᵀR = I) about the model of rigid motions: distances and dot products preserved, scalar projection / plane signed distance invariant, projections commute, inverse restores, composition = sequence (2-D and 3-D). Metamorphic checks of every public transform API against the model and against each other on every run.",
+        "level_note": "Trusted: Lean kernel, Mathlib, hand-written model validated by the correspondence run; nalgebra Isometry arithmetic and parry closest-point are compared, not proved; rounding not analysed.",
+        "files": ["src/common/surface_point.rs", "src/common/points.rs", "src/geom2.rs", "src/geom3.rs", "src/geom3/plane3.rs", "src/geom3/point_cloud.rs", "src/geom2/line2.rs", "src/metrology.rs", "src/common/convert_2d_3d.rs"],
+        "tol": {"*": 1e-9, "xform.apply3": 1e-8, "xform.apply2": 1e-8, "xform.sp3": 1e-8, "xform.plane": 1e-8},
+    },
     "C04": {
         "cases": {"quick": 3200, "thorough": 320000},
         "level_text": "Theorems about the model of between_lengths: ill-posed requests yield nothing (decision logic stated outright), the walk stays within its fuel bound, telescoping of length-along over one edge; reversal; control-point precedence. Model (the Rust loop ported statement by statement, incl. the operator precedence of the control variant) tied to the Rust by a differential run with vertex-exact, seam, same-edge, last-edge and tol-apart requests and nested histories.",
